@@ -4,8 +4,18 @@
      create_new_face_adjacent_to_edge, create_single_face_between_edge_and_next, extend_line,
      split_edge_when_all_vertices_on_line, insert_first_vertex, insert_second_vertex. *)
 From Coq Require Import ZArith List Bool Arith Lia.
-From SpadeV Require Import Obs.State Obs.Spec Obs.SpecProp Vmap.Model Dcel.Raw Dcel.WfCore Gen.DcelOps.
+From SpadeV Require Import Obs.State Obs.Spec Obs.SpecProp Vmap.Model Dcel.Raw Dcel.Chain Dcel.WfCore Gen.DcelOps.
 Import ListNotations.
+
+(* ROBUSTNESS AGAINST REORDERINGS OF THE GENERATED CODE.  Every section below starts from a lemma X_unfold
+   (el_unfold, sl_unfold, cnf_unfold, csf_unfold) which states that, under the preconditions of the section, the
+   generated primitive returns a REFERENCE chain of writes written out in the statement; all later lemmas read
+   through that reference chain with conditional read-after-write lemmas (raw_simp / fld_simp), which is
+   insensitive to order.  The X_unfold lemmas themselves do not compare the generated chain with the reference
+   chain by reflexivity: after the guards of the primitive have been resolved, the two chains are proved equal by
+   ch_chain_eq (Dcel/Chain.v): table by table, entry by entry, both sides evaluated by peeling the writes off in
+   whatever order they come, with the distinctness / range facts X_ctx of the section for the side conditions.
+   Independent statements of the generated functions may therefore be permuted freely. *)
 
 (* ------------------------------------------------------------------------------------------ *)
 (* list lemmas *)
@@ -462,15 +472,6 @@ Definition el_he (x : nat) : hrec :=
   else if x =? N + 1 then mkh N (rev o) (e_face d o) vtx
   else dflt_h.
 
-Lemma el_unfold : extend_line d vtx v =
-  (push_vertex (push_edge (set_next (set_prev d o (2 * length (d_flags d))) (rev o) (2 * length (d_flags d) + 1))
-      (mkh o (2 * length (d_flags d) + 1) (e_face d o) (length (d_verts d))) (mkh (2 * length (d_flags d)) (rev o) (e_face d o) vtx)) v (Some (2 * length (d_flags d))),
-   length (d_verts d)).
-Proof.
-  unfold extend_line. rewrite Hout. unfold e_rev at 2 3. rewrite rev_involutive, Nat.eqb_refl. cbn [negb].
-  cbv zeta. rewrite rev_normalized. reflexivity.
-Qed.
-
 Lemma el_he_facts : forall x, x < N ->
   (e_next d x < N /\ e_prev d x < N /\ e_face d x < length (d_faces d) /\ e_origin d x < V) /\
   (e_prev d (e_next d x) = x /\ e_next d (e_prev d x) = x /\
@@ -490,6 +491,20 @@ Proof.
   - destruct (rev_cases o) as [k [[H1 H2]|[H1 H2]]]; lia.
   - apply rev_involutive.
   - destruct (el_he_facts (rev o) Hi) as (_ & _ & _ & Hf & _). rewrite Hend in Hf. congruence.
+Qed.
+
+Lemma el_unfold : extend_line d vtx v =
+  (push_vertex (push_edge (set_next (set_prev d o (2 * length (d_flags d))) (rev o) (2 * length (d_flags d) + 1))
+      (mkh o (2 * length (d_flags d) + 1) (e_face d o) (length (d_verts d))) (mkh (2 * length (d_flags d)) (rev o) (e_face d o) vtx)) v (Some (2 * length (d_flags d))),
+   length (d_verts d)).
+Proof.
+  unfold extend_line. rewrite Hout. unfold e_rev at 2 3. rewrite rev_involutive, Nat.eqb_refl. cbn [negb].
+  cbv zeta. rewrite rev_normalized.
+  (* the generated chain against the reference chain of the statement, up to the order of the writes *)
+  apply ch_pair_eq; [|reflexivity].
+  unfold normalized, num_undirected_edges, num_vertices, e_rev, e_face.
+  pose proof el_ctx as Hc; decompose [and] Hc; clear Hc. unfold N, V in *.
+  ch_chain_eq.
 Qed.
 
 Lemma el_half_edge : forall x, half_edge d' x = el_he x.
@@ -692,12 +707,18 @@ Lemma sl_unfold : split_edge_when_all_vertices_on_line d e v =
          (mkh en e 0 V) (mkh r rp 0 to_)) v (Some N),
    ((e, N), V)).
 Proof.
-  destruct sl_ctx as (_ & _ & _ & _ & _ & Hev & _).
+  destruct sl_ctx as (He' & Hr & Hen & Hrp & Hto & Hev & Hre & Hrr & Hiso & Hene & Hrpr).
   unfold split_edge_when_all_vertices_on_line. unfold e_rev.
   rewrite Hface. rewrite Hfacer. cbn [Nat.eqb negb].
   cbv zeta. pose proof (rev_normalized (num_undirected_edges d)) as Hrn. unfold e_rev in Hrn. rewrite Hrn.
   unfold normalized, num_undirected_edges, num_vertices, e_to, e_rev. rewrite <- Hev.
-  destruct (en =? r); reflexivity.
+  (* the generated chain against the reference chain of the statement, up to the order of the writes *)
+  unfold e_face, e_next, e_prev.
+  destruct (Nat.eqb_spec (h_next (half_edge d e)) r) as [Hi|Hi];
+  [ assert (Hrpe : rp = e) by (apply Hiso; exact Hi)
+  | assert (Hrpe : rp <> e) by (intro; apply Hi, Hiso; assumption) ]; clear Hiso;
+  unfold e_next, e_prev, e_origin in *;
+  cbv beta iota zeta; (apply ch_pair_eq; [|reflexivity]); ch_chain_eq.
 Qed.
 
 Lemma sl_len : length (d_hedges d') = N + 2.
@@ -942,13 +963,16 @@ Lemma cnf_unfold : create_new_face_adjacent_to_edge d e v =
         en (N + 1))
      ep (N + 3), V).
 Proof.
-  destruct cnf_ctx as (_ & _ & _ & Hev & _).
+  destruct cnf_ctx as (He' & Hen & Hep & Hev & Hene & Hepe & Hto & Hfrom & HF1 & Hfen & Hfep & Hr).
   unfold create_new_face_adjacent_to_edge. cbv zeta.
   unfold normalized, not_normalized, num_undirected_edges, num_faces, num_vertices, e_to, e_rev.
   change (h_face (half_edge d e)) with (e_face d e). rewrite Hface.
   replace (2 * (length (d_flags d) + 1) + 1) with (N + 3) by lia.
   replace (2 * (length (d_flags d) + 1)) with (N + 2) by lia.
-  rewrite <- Hev. reflexivity.
+  rewrite <- Hev.
+  (* the generated chain against the reference chain of the statement, up to the order of the writes *)
+  apply ch_pair_eq; [|reflexivity].
+  unfold e_next, e_prev, e_origin, e_face in *. ch_chain_eq.
 Qed.
 
 Lemma cnf_len : length (d_hedges d') = N + 4.
@@ -1190,10 +1214,14 @@ Lemma csf_unfold : create_single_face_between_edge_and_next d e =
         (mkh e en F to_) (mkh enn ep 0 from))
      (Some N), N + 1).
 Proof.
-  destruct csf_ctx as (_ & _ & _ & _ & Hev & _).
-  unfold create_single_face_between_edge_and_next. cbv zeta. cbn [fst snd].
-  rewrite rev_normalized. unfold normalized, num_undirected_edges, num_faces, e_to, e_rev.
-  rewrite <- Hev. reflexivity.
+  pose proof csf_ctx as Hc. decompose [and] Hc. clear Hc.
+  match goal with Hev : length (d_hedges d) = 2 * length (d_flags d) |- _ =>
+  unfold create_single_face_between_edge_and_next; cbv zeta; cbn [fst snd];
+  rewrite rev_normalized; unfold normalized, num_undirected_edges, num_faces, e_to, e_rev;
+  rewrite <- Hev end.
+  (* the generated chain against the reference chain of the statement, up to the order of the writes *)
+  apply ch_pair_eq; [|reflexivity].
+  unfold e_next, e_prev, e_origin, e_face in *. ch_chain_eq.
 Qed.
 
 Lemma csf_len : length (d_hedges d') = N + 2.
